@@ -135,7 +135,7 @@ Theorem cmp_never_favours_finalized_or_invalid i :
   cand_valid i = false \/ apply_ok i = false \/ forks_below_final i ->
   0 <= fst (outer_cmp i).
 Proof.
-  intros [Hw1 Hw2] H. unfold outer_cmp.
+  intros [Hw1 Hw2] H. unfold outer_cmp, outer_cmp_gen, next_to_fork_final.
   destruct (cand_valid i) eqn:Ev; cbn [negb]; [|cbn; lia].
   destruct (cand_is_tip i); [cbn; lia|].
   destruct (finalized_at i (tip_h i) && (cand_h i <=? tip_h i)); [cbn; lia|].
@@ -160,7 +160,7 @@ Theorem outer_negative_only_if_valid i :
   fst (outer_cmp i) < 0 -> cand_valid i = true /\ apply_ok i = true /\
   (cand_above_tip i = true \/ (core i < 0 /\ b_valid_alone i = true)).
 Proof.
-  unfold outer_cmp.
+  unfold outer_cmp, outer_cmp_gen, next_to_fork_final.
   destruct (cand_valid i); cbn [negb]; [|cbn; lia].
   destruct (cand_is_tip i); [cbn; lia|].
   destruct (finalized_at i (tip_h i) && (cand_h i <=? tip_h i)); [cbn; lia|].
@@ -173,4 +173,28 @@ Proof.
     destruct (apply_ok i); cbn [negb]; [|cbn; lia].
     destruct (Z.leb_spec 0 (core i)); [cbn; lia|].
     destruct (b_valid_alone i); cbn; intros; [auto|lia].
+Qed.
+
+(** a candidate below a finalized block is answered with exactly 1 (TIP_IS_FINAL), whatever its height and score *)
+Theorem outer_below_final_is_one i :
+  outer_wf i -> cand_valid i = true -> cand_is_tip i = false -> cand_on_active i = false ->
+  forks_below_final i -> outer_cmp i = (1, TIP_IS_FINAL).
+Proof.
+  intros [Hw1 Hw2] Hv Ht Ha (f & Hf & Hlt). specialize (Hw2 f Hf).
+  unfold outer_cmp, outer_cmp_gen, next_to_fork_final, finalized_at. rewrite Hv, Ht, Ha, Hf. cbn [negb].
+  destruct ((tip_h i <=? f) && (cand_h i <=? tip_h i)); [reflexivity|].
+  destruct (cand_above_tip i) eqn:Eab; [specialize (Hw1 eq_refl); lia|].
+  destruct (Z.leb_spec (fork_h i + 1) (tip_h i)); [|lia].
+  destruct (Z.leb_spec (fork_h i + 1) f); [|lia]. reflexivity.
+Qed.
+
+(** REFUTED variant: with the height condition of the neighbouring short-cut copied into the guard
+    ([nextToFork->finalized && candidate.height <= tip.height]) a TALLER candidate that forks below a
+    finalized block goes through keystone scoring and can win *)
+Theorem outer_height_guard_refuted :
+  exists i, outer_wf i /\ forks_below_final i /\ fst (outer_cmp_gen next_to_fork_final_height i) < 0.
+Proof.
+  exists (mkO true false 9 10 1 (Some 4) false false true 2 (-100) true).
+  split; [split; cbn; [discriminate | intros f H; inversion H; lia]|].
+  split; [exists 4; cbn; split; [reflexivity|lia]|]. vm_compute. reflexivity.
 Qed.
